@@ -3,27 +3,27 @@
 
 def config(T):
     return {
-        "C01": dict(pkg="c01", tests=[T("TestPinned"), T("TestExec", 2400, 80000, sq=4, st=16, race=True), T("TestExecUnionEdge", 800, 16000, sq=2, st=8), T("TestExecSharedFragments", 1200, 32000, sq=4, st=8, race=True)]),
-        "C02": dict(pkg="c02", tests=[T("TestConverge", 800, 32000, sq=8, st=16, race=True)]),
-        "C03": dict(pkg="c03", fuzz=[dict(name="FuzzRoundTrip", secs=60)], tests=[T("TestPinned"), T("TestRoundTrip", 12000, 400000, sq=4, st=16)]),
+        "C01": dict(pkg="c01", tests=[T("TestPinned"), T("TestExec", 4800, 80000, sq=8, st=16, race=True), T("TestExecUnionEdge", 800, 16000, sq=2, st=8), T("TestExecSharedFragments", 1200, 32000, sq=4, st=8, race=True)]),
+        "C02": dict(pkg="c02", tests=[T("TestConverge", 2400, 32000, sq=8, st=16, race=True)]),
+        "C03": dict(pkg="c03", fuzz=[dict(name="FuzzRoundTrip", secs=60)], tests=[T("TestPinned"), T("TestRoundTrip", 36000, 400000, sq=8, st=16)]),
         "C06": dict(pkg="c06", race_quick=True, tests=[T("TestKnownTypename"), T("TestSiblingHops", race=True), T("TestTransparent", 640, 16000, sq=8, st=16), T("TestDirectivesGateway", 80, 4000, sq=4, st=8),
                                                        T("TestConcurrentRefresh", 30, 600, sq=1, st=4, race=True, timeout_q=900)]),
-        "C07": dict(pkg="c07", tests=[T("TestLiveSQL", 800, 32000, sq=8, st=16, race=True)]),
-        "C08": dict(pkg="c08", tests=[T("TestCache", 2400, 96000, sq=8, st=16, race=True)]),
-        "C09": dict(pkg="c09", tests=[T("TestKnownOrder"), T("TestMergeAlgebra", 4000, 160000, sq=4, st=16), T("TestVersionedGateway", 240, 8000, sq=4, st=8)]),
-        "C10": dict(pkg="c10", tests=[T("TestBatchTransparent", 1600, 48000, sq=8, st=16, race=True)]),
-        "C11": dict(pkg="c11", tests=[T("TestPagination", 6000, 240000, sq=4, st=16)]),
-        "C12": dict(pkg="c12", tests=[T("TestShardLimit", 2400, 64000, sq=4, st=16)]),
-        "C13": dict(pkg="c13", tests=[T("TestCodec", 6000, 300000, sq=4, st=16), T("TestProtoFilter", 3000, 100000, sq=2, st=8)]),
-        "C14": dict(pkg="c14", tests=[T("TestPinned"), T("TestAdvertised", 600, 24000, sq=4, st=16), T("TestMethodShapes", 3000, 120000, sq=2, st=8)]),
-        "C15": dict(pkg="c15", fuzz=[dict(name="FuzzPipeline", secs=90)], tests=[T("TestPinned"), T("TestDocuments", 12000, 600000, sq=4, st=16), T("TestBombs", 200, 2000, sq=2, st=4),
+        "C07": dict(pkg="c07", tests=[T("TestLiveSQL", 2400, 32000, sq=8, st=16, race=True)]),
+        "C08": dict(pkg="c08", tests=[T("TestCache", 7200, 96000, sq=8, st=16, race=True)]),
+        "C09": dict(pkg="c09", tests=[T("TestKnownOrder"), T("TestMergeAlgebra", 12000, 160000, sq=8, st=16), T("TestVersionedGateway", 240, 8000, sq=4, st=8)]),
+        "C10": dict(pkg="c10", tests=[T("TestBatchTransparent", 4800, 48000, sq=8, st=16, race=True)]),
+        "C11": dict(pkg="c11", tests=[T("TestPagination", 18000, 240000, sq=8, st=16)]),
+        "C12": dict(pkg="c12", tests=[T("TestShardLimit", 7200, 64000, sq=8, st=16)]),
+        "C13": dict(pkg="c13", tests=[T("TestCodec", 18000, 300000, sq=6, st=16), T("TestProtoFilter", 9000, 100000, sq=4, st=8)]),
+        "C14": dict(pkg="c14", tests=[T("TestPinned"), T("TestAdvertised", 1800, 24000, sq=6, st=16), T("TestMethodShapes", 9000, 120000, sq=4, st=8)]),
+        "C15": dict(pkg="c15", fuzz=[dict(name="FuzzPipeline", secs=90)], tests=[T("TestPinned"), T("TestDocuments", 36000, 600000, sq=6, st=16), T("TestBombs", 200, 2000, sq=2, st=4),
                                       T("TestEnvelopes", 600, 20000, sq=2, st=8, race=True), T("TestHTTP", 800, 20000, sq=2, st=4),
                                       T("TestPanicContained", 150, 3000, sq=1, st=4, race=True), T("TestCancellation", 200, 4000, sq=1, st=1), T("TestGatewayCancellation", 150, 3000, sq=1, st=1)]),
-        "C16": dict(pkg="c16", tests=[T("TestDirect", 4000, 120000, sq=4, st=12), T("TestSocket", 600, 12000, sq=4, st=8, race=True)]),
-        "C17": dict(pkg="c17", tests=[T("TestPinned"), T("TestStaleCloser"), T("TestLifecycle", 640, 24000, sq=8, st=16, race=True)]),
-        "C18": dict(pkg="c18", tests=[T("TestArgs", 8000, 400000, sq=4, st=16), T("TestArgsNegative", 4000, 100000, sq=2, st=8)]),
-        "C19": dict(pkg="c19", tests=[T("TestPinned"), T("TestDirectives", 4000, 160000, sq=4, st=16)]),
+        "C16": dict(pkg="c16", tests=[T("TestDirect", 12000, 120000, sq=6, st=12), T("TestSocket", 1800, 12000, sq=6, st=8, race=True)]),
+        "C17": dict(pkg="c17", tests=[T("TestPinned"), T("TestStaleCloser"), T("TestLifecycle", 1920, 24000, sq=8, st=16, race=True)]),
+        "C18": dict(pkg="c18", tests=[T("TestArgs", 24000, 400000, sq=6, st=16), T("TestArgsNegative", 12000, 100000, sq=4, st=8)]),
+        "C19": dict(pkg="c19", tests=[T("TestPinned"), T("TestDirectives", 12000, 160000, sq=8, st=16)]),
         "C20": dict(pkg="c20", tests=[T("TestPinned"), T("TestLimiter", 480, 24000, sq=8, st=16, race=True)]),
-        "C04": dict(pkg="c04", tests=[T("TestRerun", 2400, 96000, sq=8, st=16, race=True)]),
-        "C05": dict(pkg="c05", tests=[T("TestBatch", 2400, 64000, sq=8, st=16, race=True)]),
+        "C04": dict(pkg="c04", tests=[T("TestRerun", 7200, 96000, sq=8, st=16, race=True)]),
+        "C05": dict(pkg="c05", tests=[T("TestBatch", 6000, 64000, sq=8, st=16, race=True)]),
     }
